@@ -169,6 +169,10 @@ func (s *serverStream) SetHeader(md metadata.MD) error {
 }
 
 func (s *serverStream) SendHeader(md metadata.MD) error {
+	if s.ctx.Err() != nil {
+		// the call is over, headers can no longer reach the client: as with SendMsg, they are not published
+		return s.doneErr()
+	}
 	s.headerM.Lock()
 	defer s.headerM.Unlock()
 
